@@ -777,7 +777,7 @@ func checkIsParamAllowed(c *core.Ctx, genPkg, irPkg *packages.Package, r *core.R
 			// `if !root { return error }`
 			guard := false
 			for _, st := range cc.Body {
-				if is, ok := st.(*ast.IfStmt); ok && types.ExprString(is.Cond) == "!root" && terminates(is.Body) {
+				if is, ok := st.(*ast.IfStmt); ok && types.ExprString(is.Cond) == "!"+paramNameOfType(fd, "bool", "root") && terminates(is.Body) {
 					guard = true
 				}
 			}
@@ -795,7 +795,7 @@ func checkIsParamAllowed(c *core.Ctx, genPkg, irPkg *packages.Package, r *core.R
 		ast.Inspect(fd.Body, func(n ast.Node) bool {
 			switch x := n.(type) {
 			case *ast.IfStmt:
-				if as, ok := x.Init.(*ast.AssignStmt); ok && len(as.Rhs) == 1 && strings.HasPrefix(types.ExprString(as.Rhs[0]), "visited[") && len(x.Body.List) == 1 {
+				if as, ok := x.Init.(*ast.AssignStmt); ok && len(as.Rhs) == 1 && strings.HasPrefix(types.ExprString(as.Rhs[0]), paramNameOfType(fd, "map[", "visited")+"[") && len(x.Body.List) == 1 {
 					if ret, ok := x.Body.List[0].(*ast.ReturnStmt); ok && len(ret.Results) == 1 {
 						if id, isID := ret.Results[0].(*ast.Ident); !isID || id.Name != "nil" {
 							hitErr = true
@@ -803,7 +803,7 @@ func checkIsParamAllowed(c *core.Ctx, genPkg, irPkg *packages.Package, r *core.R
 					}
 				}
 			case *ast.CallExpr:
-				if id, ok := x.Fun.(*ast.Ident); ok && id.Name == "delete" && len(x.Args) == 2 && types.ExprString(x.Args[0]) == "visited" {
+				if id, ok := x.Fun.(*ast.Ident); ok && id.Name == "delete" && len(x.Args) == 2 && types.ExprString(x.Args[0]) == paramNameOfType(fd, "map[", "visited") {
 					pops = true
 				}
 			}
@@ -992,4 +992,20 @@ func ctorUnreachableFromSchemaGen(c *core.Ctx, ctor string) (bool, string) {
 		return false, "ir." + ctor + " is reachable from generateSchema: " + reach.Path(target)
 	}
 	return true, "its only constructor ir." + ctor + " is not reachable from (*Generator).generateSchema (CHA call graph), so no parameter type has this kind"
+}
+
+// paramNameOfType: the name of the first parameter of fd whose type text starts with prefix (so that a renamed
+// parameter is still the parameter); def if there is none.
+func paramNameOfType(fd *ast.FuncDecl, prefix, def string) string {
+	if fd == nil || fd.Type.Params == nil {
+		return def
+	}
+	for _, f := range fd.Type.Params.List {
+		if strings.HasPrefix(types.ExprString(f.Type), prefix) {
+			for _, n := range f.Names {
+				return n.Name
+			}
+		}
+	}
+	return def
 }
